@@ -70,9 +70,14 @@ def case_profiles(chunk):
         sp = math.hypot(um, vm)
         lab = core.canon(case)
         kw = dict(tke=TKE) if clo == "OAAHOC" else {}
+        # the wind is handed over as tuple, list or float64 ndarray (cycling); an array must come back untouched
+        wform = (n + int(zm)) % 3
+        warg = (um, vm) if wform == 0 else ([um, vm] if wform == 1 else np.array([um, vm], dtype=float))
         with warnings.catch_warnings():
             warnings.simplefilter("ignore")
-            z, (u, vv, Kx, Ky, Kz) = vertical_profiles(n, zm, (um, vm), ustar=us, mol=L, prsc=pr, closure=clo, **kw)
+            z, (u, vv, Kx, Ky, Kz) = vertical_profiles(n, zm, warg, ustar=us, mol=L, prsc=pr, closure=clo, **kw)
+        if wform and (float(warg[0]) != um or float(warg[1]) != vm):
+            v.append({"sub": "input-modified", "sig": "input-modified/wind", "msg": "vertical_profiles changed the caller's wind %s from (%g, %g) to (%r, %r); case %s" % (type(warg).__name__, um, vm, warg[0], warg[1], core.canon(case))})
         z, u, vv, Kx, Ky, Kz = (np.asarray(a, dtype=float).ravel() if np.ndim(a) else a for a in (z, u, vv, Kx, Ky, Kz))
         nt += 1
         z0 = zm * math.exp(-CM * CL * sp * math.sqrt(TKE) / us**2) if clo == "OAAHOC" else most.z0_from_ustar(zm, sp, us, L)
@@ -189,6 +194,10 @@ HIST_OPS = [
     {"n": 4, "zm": 5.0, "wind": [3.0, 1.0], "ustar": 0.4, "mol": 1e9, "closure": "OAAHOC", "tke": 0.8},
     {"n": 4, "zm": 5.0, "wind": [3.0, 1.0], "ustar": 0.4, "mol": -50.0, "closure": "MOST", "domain_height": 30.0, "stretch": 20.0},
     {"n": 3, "zm": 2.0, "wind": [0.0, -4.0], "z0": 0.2, "mol": 25.0, "closure": "MOSTM"},
+    # twins of op 0 that differ in exactly one argument
+    {"n": 4, "zm": 5.0, "wind": [3.0, 1.0], "ustar": 0.4, "mol": -50.0, "closure": "MOST", "prsc": 0.7},
+    {"n": 4, "zm": 5.0, "wind": [1.0, 3.0], "ustar": 0.4, "mol": -50.0, "closure": "MOST"},
+    {"n": 5, "zm": 5.0, "wind": [3.0, 1.0], "ustar": 0.4, "mol": -50.0, "closure": "MOST"},
 ]
 
 
